@@ -169,6 +169,10 @@ class SymStruct:
     def dumps(self):
         return dump_struct(self._symx_stype, self._symx_vals)
 
+    @property
+    def __class__(self):
+        return object.__getattribute__(self, "_symx_stype")
+
     def __repr__(self):
         return "<SymStruct %s %r>" % (self._symx_stype.__name__, self._symx_vals)
 
